@@ -8,6 +8,15 @@ ID = "C17"
 PROPS_FILE = "Props/C17.v"
 COQ_IMPORTS = "From SA Require Import Model.HarnessC17."
 GEN_AVAILABLE = set()
+
+
+def _ties():
+    from harness.translate import invertpl_tr
+    return [{"name": "utils.invert_pl_function: crossing masks, interpolation, closest-point distance (array plumbing pinned)",
+             "translate": invertpl_tr.translate_invert_pl, "gen_file": "Gen_invertpl.v", "tie_file": "Tie_invertpl.v"}]
+
+
+TIES = _ties()
 RULE = ("two streams. inv: invert_pl_function on structured curves (x non-decreasing with duplicate abscissae carrying "
         "equal y; y from small pools so that targets are touched, crossed, sit on plateaus, lie outside the range; "
         "monotone, zig-zag, constant curves; n = 0..10; power-of-two differences (exact float arithmetic) and arbitrary "
